@@ -215,12 +215,26 @@ SCRIPTED = [
     ("chain", [], [[["raw", "o1.txt", "user\n"], ["del", "s1.txt"]], [["set", "s1.txt", "a"]]]),
     ("chain", [], [[["raw", "o1.txt", "user\n"]], [["del", "o2.txt"], ["set", "s2.txt", "b"]]]),
     ("chain", [], [[["set", "s1.txt", "b"], ["set", "s1.txt", "a"]], [["del", "s1.txt"], ["set", "s1.txt", "a"]], [["del", "s1.txt"]]]),
+    # changes made while the build that precedes the watching is still running (4th element: [n-th idle point, edit])
+    ("tree_glob", [], [[], [["mvdir", "src2", "src"]]], [[6, ["mvdir", "src", "src2"]]]),
+    ("tree_glob", [], [[], [["set", "data/d3.txt", "a"]]], [[12, ["mvdir", "data", "data2"]]]),
+    ("tree_glob", [], [[["set", "src/g3.in", "a"]]], [[8, ["del", "src/g2.in"]], [14, ["set", "data/d1.txt", "b"]]]),
+    ("dir_glob", [], [[], [["mkdir", "cases/c2"], ["set", "cases/c2/inp.txt", "a"]]], [[7, ["mvdir", "cases/c2", "elsewhere"]]]),
+    ("dir_glob", [], [[["rmdir", "cases/c1"]]], [[15, ["mvdir", "cases/c2", "cases/c3"]]]),
+    ("nested_dirs", [], [[], [["set", "src/lib/g3.in", "a"]]], [[9, ["mvdir", "src/lib", "src/lib2"]], [20, ["mvdir", "data/deep", "data/deep2"]]]),
+    ("chain", [], [[], [["set", "s2.txt", "a"]]], [[5, ["set", "s2.txt", "b"]], [11, ["del", "s1.txt"]]]),
+    ("glob_nodeless", [], [[], [["mvdir", "elsewhere", "data/b1"]]], [[14, ["mvdir", "data/b1", "elsewhere"]]]),
+    ("glob_nodeless", [], [[], [["set", "data/b2/w.csv", "a"]]], [[22, ["mvdir", "data/b2", "data/b3"]]]),
+    ("glob_nodeless", [], [[["mvdir", "data/b1", "elsewhere"]], [["del", "data/b2/z.csv"]], [["mvdir", "elsewhere", "data/b1"]]]),
+    ("glob_nodeless", [], [[["rmdir", "data/b1"], ["set", "data/b2/w.csv", "a"]], [["rmdir", "data"]]]),
 ]
 
 
 def scripted_cases(seed):
     cases = []
-    for j, (shape, between, watches) in enumerate(SCRIPTED + SCRIPTED):
+    for j, item in enumerate(SCRIPTED + SCRIPTED):
+        shape, between, watches = item[:3]
+        during = item[3] if len(item) > 3 else None
         # one hash worker: the updates of a batch arrive in queue order (sorted paths when
         # watching, table order at startup); two workers: in an order chosen by the schedule
         cfg = {"njob": 1 if j < len(SCRIPTED) else 2, "resources": "gpu:2,tpu:2"}
@@ -228,6 +242,8 @@ def scripted_cases(seed):
         phases = [initial_phase(proj, cfg=cfg, seed=seed + j)]
         if between:
             phases.append({"edits": between, "how": "restart", "cfg": cfg, "seed": seed + 50 + j})
+        if during:
+            phases[-1]["during"] = copy.deepcopy(during)
         for w in watches:
             phases.append({"edits": w, "how": "watch"})
         cases.append({"tid": f"ws{j}-{shape}", "project": proj, "phases": phases, "seed": seed * 7 + j})
